@@ -58,9 +58,9 @@ func writeEvidence(prop, tier string, seed int, results []*harnessResult, loadT,
 		hs = append(hs, h)
 		states += r.Paths
 		trans += r.Z3Q + r.CvcQ
-		obl += r.Asserts
-		dis += r.Discharged
-		nontriv += r.Discharged
+		obl += r.Asserts + r.Trivial
+		dis += r.Discharged + r.Trivial
+		nontriv += r.Discharged + r.PathsAsserting
 		replaysRun += len(r.Replays)
 		for _, f := range r.Funcs {
 			funcs[f] = true
